@@ -203,7 +203,7 @@ def exInst : Inst :=
               ⟨"C@G1", "C", 0, "G1", .virtual, -1, 40, [⟨1, 2, [("CPU", 1)]⟩], 0, 0⟩,
               ⟨"R@G1", "R", 0, "G1", .running, 5, 40, [⟨1, 6, [("CPU", 1)]⟩], 0, 0⟩]
     nOffered := 3
-    nodes := [⟨"A@G0", "A", 0, "G0"⟩, ⟨"B@G0", "B", 0, "G0"⟩, ⟨"R@G1", "R", 0, "G1"⟩, ⟨"C@G1", "C", 0, "G1"⟩]
+    nodes := [⟨"A@G0", "A", 0, "G0", .released⟩, ⟨"B@G0", "B", 0, "G0", .virtual⟩, ⟨"R@G1", "R", 0, "G1", .running⟩, ⟨"C@G1", "C", 0, "G1", .virtual⟩]
     edges := [("A@G0", "B@G0"), ("R@G1", "C@G1")]
     enforceDeadlines := true, retract := false, releaseTaskgraphs := false, goalSlack := false
     allowed0 := [] }
